@@ -205,8 +205,8 @@ fn setop_fast<const LA: usize, const LB: usize>(op: Op) {
     let r = take(run_op(op, &a, &b, t));
     let e = define::<LA, LB>(op, &a, &b);
     assert_eq_exp(&r, &e);
-    zcover!(LA * t < LB && e.n >= 2, "binary-search variant selected");
-    zcover!(LA * t >= LB && e.n >= 2, "linear variant selected");
+    zcover!(LA * t < LB && e.n >= 1, "opt: binary-search variant selected");
+    zcover!(LA * t >= LB && e.n >= 1, "linear variant selected");
 }
 
 /// multiset_union: sorted merge keeping every duplicate = sorted + multiset equality with A ++ B.
@@ -288,6 +288,10 @@ c11_setop!(c11_setops_setdiff_2x2, quick, 4, setop_filter, 2, 2, SetDiff);
 c11_setop!(c11_setops_inter_3x3, quick, 6, setop_filter, 3, 3, Inter);
 c11_setop!(c11_setops_inter1small_3x3, quick, 4, setop_filter, 3, 3, Inter1Small);
 c11_setop!(c11_setops_interfast_3x3, thorough, 6, setop_fast, 3, 3, InterFast);
+c11_setop!(c11_setops_interfast_3x1, quick, 6, setop_fast, 3, 1, InterFast);
+c11_setop!(c11_setops_interfast_4x1, quick, 7, setop_fast, 4, 1, InterFast);
+c11_setop!(c11_setops_inter2fast_3x1, quick, 6, setop_fast, 3, 1, Inter2Fast);
+c11_setop!(c11_setops_interfast_1x3, quick, 6, setop_fast, 1, 3, InterFast);
 c11_setop!(c11_setops_inter2_3x3, quick, 6, setop_filter, 3, 3, Inter2);
 c11_setop!(c11_setops_inter2small_3x3, quick, 4, setop_filter, 3, 3, Inter2Small);
 c11_setop!(c11_setops_inter2fast_3x3, thorough, 6, setop_fast, 3, 3, Inter2Fast);
@@ -895,7 +899,7 @@ zv_harness! {
 }
 
 /// MultiWayMerge::merge over K VectorSources of L elements (heap mode for 2..=8 sources).
-fn multiway_check<const K: usize, const L: usize, const M: usize>(tournament: bool) {
+fn multiway_check<const K: usize, const L: usize, const M: usize>(tournament: bool, max_ways: usize) {
     let mut all = [0u8; M];
     let mut sources: Vec<VectorSource<u8>> = Vec::with_capacity(K);
     let mut w = 0;
@@ -912,7 +916,7 @@ fn multiway_check<const K: usize, const L: usize, const M: usize>(tournament: bo
     let mut m = MultiWayMerge::with_config(MultiWayMergeConfig {
         use_parallel: false,
         buffer_size: 64,
-        max_merge_ways: 1024,
+        max_merge_ways: max_ways,
         use_tournament_tree: tournament,
     });
     let r = m.merge(sources);
@@ -943,7 +947,7 @@ macro_rules! c11_multiway {
             targets: "multiway_merge::MultiWayMerge::merge (1 source: direct copy; 2..=8 sources: merge_heap over BinaryHeap<HeapEntry>; > 8 sources with use_tournament_tree (last instance flag): merge_tournament), VectorSource",
             bounds: "K sources of L sorted symbolic u8 each (K, L, K*L from the instance), every byte value; no reallocation reached (asserted)",
             oracle: "Ok; output sorted, length K*L, every value with its total multiplicity (duplicates kept)",
-            body: { multiway_check::<$k, $l, $m>($t) }
+            body: { multiway_check::<$k, $l, $m>($t, 1024) }
         }
     };
 }
@@ -951,3 +955,23 @@ c11_multiway!(c11_multiway_heap_k2_l2, quick, 6, 2, 2, 4, false);
 c11_multiway!(c11_multiway_single_k1_l3, quick, 5, 1, 3, 3, false);
 c11_multiway!(c11_multiway_heap_k3_l2, thorough, 8, 3, 2, 6, false);
 c11_multiway!(c11_multiway_tournament_k9_l1, thorough, 11, 9, 1, 9, true);
+
+macro_rules! c11_multiway_hier {
+    ($name:ident, $tier:ident, $unwind:literal, $k:literal, $l:literal, $m:literal, $ways:literal) => {
+        zv_harness! {
+            name: $name,
+            prop: "C11",
+            tier: $tier,
+            unwind: $unwind,
+            stubs: [alloc::fmt::format => crate::common::stubs::fmt_format,
+                    std::time::Instant::now => crate::common::stubs::instant_now,
+                    std::time::Instant::elapsed => crate::common::stubs::instant_elapsed],
+            targets: "multiway_merge::MultiWayMerge::merge with more sources than max_merge_ways (merge_hierarchical), VectorSource",
+            bounds: "K sources of L sorted symbolic u8 each, max_merge_ways = last instance arg < K (so the number of groups is odd and >= 3 for the instances chosen)",
+            oracle: "Ok; output sorted, length K*L, every value with its total multiplicity (no run dropped)",
+            body: { multiway_check::<$k, $l, $m>(false, $ways) }
+        }
+    };
+}
+c11_multiway_hier!(c11_multiway_hier_k3_l1_w1, quick, 8, 3, 1, 3, 1);
+c11_multiway_hier!(c11_multiway_hier_k5_l1_w2, thorough, 10, 5, 1, 5, 2);
